@@ -53,7 +53,7 @@ class _Commit:
         self.tree = _Tree(tree, f"FakeCommit({intid})")
         self.tags = tags
         self.committed_date = BASE_TIME + intid * 47 % 80000 + (intid * 7919) % 91
-        self.author = _Author(AUTHORS[(intid * 31 + len(repo_name)) % len(AUTHORS)])
+        self.author = _Author(AUTHORS[int(hs[8:12], 16) % len(AUTHORS)])
 
     def __repr__(self):
         return f"FakeCommit({self.intid} {self.hexsha[:11]} {self.message})"
@@ -179,6 +179,59 @@ REPO_SPECS = {
 }
 
 
+MULTI_SPECS = {
+    # a parent repository that records the component's version in a DEPENDS file:
+    # builds of the component are reported with "included at" notes and the parent shows bumps
+    "parent+lib": {
+        "c_master": dict(name="c_master", components={"proj_lib": "DEPENDS"}, lines=[
+            'branch: origin/master',
+            '990<-10|branch master head',
+            '--> |file:DEPENDS:{"proj_lib": "10.120.2019"}',
+            'branch: origin/release/5.7',
+            '490|branch 5.7 head - not a build',
+            '--> |file:DEPENDS:{"proj_lib": "10.120.2019"}',
+            '480<-10|build 5.7.77',
+            '--> |tags:build_77_release_5_7_success',
+            '--> |file:DEPENDS:{"proj_lib": "10.120.2019"}',
+            'branch: origin/release/5.5',
+            '290<-10|branch 5.5 head',
+            '--> |file:DEPENDS:{"proj_lib": "10.120.2010"}',
+            'branch: origin/release/5.4',
+            '128|head of branch',
+            '--> |file:DEPENDS:{"proj_lib": "10.120.2018"}',
+            '127|build 17|tags: build_17_release_5_4_success',
+            '--> |file:DEPENDS:{"proj_lib": "10.120.2017"}',
+            '124|build 14|tags: build_14_release_5_4_success',
+            '--> |file:DEPENDS:{"proj_lib": "10.120.2014"}',
+            '121|build 11|tags: build_11_release_5_4_success',
+            '--> |file:DEPENDS:{"proj_lib": "10.120.2011"}',
+            '120|build 10|tags: build_10_release_5_4_success',
+            '--> |file:DEPENDS:{"proj_lib": "10.120.2010"}',
+            'branch: origin/release/5.3',
+            '90|build 5|tags: build_5_release_5_3_success',
+            '--> |file:DEPENDS:{"proj_lib": "10.120.2010"}',
+            '10|build 3|tags: build_3_release_5_3_success',
+            '--> |file:DEPENDS:{"proj_lib": "10.110.2020"}',
+        ]),
+        "proj_lib": dict(name="proj_lib", components={}, lines=[
+            'branch: origin/master',
+            '990 | final_build |tags: build_3090_release_10_130_success',
+            '--> |file:VERSION:10.130|',
+            'branch: origin/release/10.120',
+            '190 | BUG-211 g |tags: build_2019_release_10_120_success',
+            '180 | BUG-211 f |tags: build_2018_release_10_120_success',
+            '160 | BUG-211 e |tags: build_2016_release_10_120_success',
+            '150 | BUG-211 d |tags: build_2015_release_10_120_success',
+            '140 | no bug    |tags: build_2014_release_10_120_success',
+            '130 | BUG-211 c |tags: build_2013_release_10_120_success',
+            '120 | BUG-211 b |tags: build_2012_release_10_120_success',
+            '110 | BUG-211 a |tags: build_2011_release_10_120_success',
+            '100 | some build |tags: build_2010_release_10_120_success',
+        ]),
+    },
+}
+
+
 def make_collection(which):
     """-> ak.ghist.ReposCollection over a fake repository."""
     from ak.ghist import ProjectRepo, ReposCollection, BuildNumData
@@ -197,6 +250,20 @@ def make_collection(which):
             d = json.load(blob.data_stream)
             return {k: [int(n) for n in v.split(".")] for k, v in d.items()}
 
+    if which in MULTI_SPECS:
+        import logging
+        types = {}
+        repos = {}
+        for rid, spec in MULTI_SPECS[which].items():
+            cls = type("Repo_" + rid, (StdRepo,), {"_COMPONENTS_VERSIONS_LOCATIONS": dict(spec["components"]),
+                                                   "__slots__": ()})
+            types[rid] = cls
+            repos[rid] = cls(rid, FakeGitRepo(*spec["lines"], name=spec["name"]), "origin")
+
+        class MultiColl(ReposCollection):
+            _REPOS_TYPES = types
+
+        return MultiColl(repos)
     spec = REPO_SPECS[which]
     repo = FakeGitRepo(*spec["lines"], name=spec["name"])
 
